@@ -41,7 +41,12 @@ fn spec(prop: &str) -> Spec {
             .floor("situation:overlapping-proofs-on-one-container", 100)
             .floor("situation:vault-proof", 200)
             .floor("situation:bucket-proof", 200)
-            .explain("C10: container model {content, live proofs}; withdrawable = content - max(proof amounts) (ids: content minus union of proven ids). Taking / burning / recalling / depositing more than the withdrawable part, or destroying a container with a live proof, must fail (safety); taking exactly the withdrawable amount, and the full amount once all proofs are dropped, must succeed (a refusal with an insufficient / locked error of a manifest the model accepts is a violation); amounts violating divisibility must fail."),
+            .floor("c10:compositions_beyond_max_refused", 100)
+            .floor("c10:compositions_within_max_succeeded", 100)
+            .floor("situation:composition-over-ascending-overlap", 100)
+            .floor("situation:composition-over-descending-overlap", 50)
+            .floor("situation:composition-over-equal-overlap", 30)
+            .explain("C10: container model {content, live proofs}; withdrawable = content - max(proof amounts) (ids: content minus union of proven ids). Taking / burning / recalling / depositing more than the withdrawable part, or destroying a container with a live proof, must fail (safety); taking exactly the withdrawable amount, and the full amount once all proofs are dropped, must succeed (a refusal with an insufficient / locked error of a manifest the model accepts is a violation); amounts violating divisibility must fail. Compositions from the auth zone (CREATE_PROOF_FROM_AUTH_ZONE_OF_AMOUNT / _OF_NON_FUNGIBLES) are backed by at most, per container, the max of the auth-zone proofs on that container (ids: their union), summed over distinct containers: asking for more must fail (composition:succeeded-although-exceeds-max-per-container), asking for at most that must not be refused for lack of base proofs; the amount produced by _OF_ALL is not observable from a manifest and carries no verdict."),
         "C36" => s
             .floor("c36:accepted_by_ruleset_all_and_executed", 500)
             .floor("c36:rejected_by_ruleset_all", 200)
@@ -134,7 +139,7 @@ fn run(args: &Args, prop: &str) -> i32 {
     if let Some(path) = &args.replay {
         return replay(args, prop, path, report);
     }
-    let per_shard = scaled(args, args.tier.pick(1500, 40_000));
+    let per_shard = scaled(args, args.tier.pick(5000, 60_000));
     let budget = Duration::from_secs(budget_secs(args.tier, 50, 720));
     report.run_shards(PHASE, args.threads, budget, |idx, rng, shard| {
         run_shard(args, prop, idx, rng, shard, per_shard, None);
